@@ -360,6 +360,9 @@ func (u *FakeUpstream) serveStream(l net.Listener, transport string) {
 		}
 		u.trackConn(id, c, raw)
 		go func() {
+			var wmu sync.Mutex
+			var wg sync.WaitGroup
+			defer wg.Wait() // runs last: held handlers must not delay the bookkeeping below
 			defer u.untrackConn(id)
 			defer c.Close()
 			if d := u.AcceptDelay.Load(); d > 0 {
@@ -373,9 +376,6 @@ func (u *FakeUpstream) serveStream(l net.Listener, transport string) {
 				}
 				c.Close()
 			}
-			var wmu sync.Mutex
-			var wg sync.WaitGroup
-			defer wg.Wait()
 			for {
 				var lb [2]byte
 				if _, err := io.ReadFull(c, lb[:]); err != nil {
